@@ -124,6 +124,10 @@ def run(ck, ctx):
                       "quoting delimiters are part of a name as written; they may be removed only by the id production under "
                       "normalize_names", f.loc(node))
     ck.ob("T-DELIM", "actions scanned for delimiter stripping", True, "", "")
+    # ---- names with unusual characters through the line pre-processing and the scanner (E7)
+    from ..specs.lines import check_names
+    check_names(ck, ctx)
+    ck.floor("O-name", 12)
     # ---- the seam to the line pre-processing for delimited names (E7)
     from ..specs import seam
     seam.check_seam(ck, ctx, [("table", dict(style=st, label=f"table, names written in style {st}", constraints=True, set_null=False))
